@@ -55,6 +55,26 @@ CHECKS = {
               "(decides strict vs non-strict without a margin), scaling / prepend / nesting laws, bracketed duration incl. no-exceedance; ~3.6k quick, ~210k thorough.",
         note=_NOTE,
         technique="property-based testing (Hypothesis): reference-model (long double / exact rational) + metamorphic oracles"),
+    "C11": dict(
+        level="Complete enumeration of every non-constant sequence over {0..4} and {-2..2} up to length 8 (976k series, quick: length 7) x ptype all/max/min "
+              "against a plateau-based reference AND the statement's validity predicate, plus generated long / plateau-rich / offset series and the cycle counter.",
+        note=_NOTE + " The enumeration is complete for the stated alphabets and lengths; longer series are sampled.",
+        technique="exhaustive enumeration of small alphabets + property-based testing (Hypothesis): reference-model and validity-predicate oracles"),
+    "C12": dict(
+        level="Complete enumeration over {-2..2} up to length 8 and {-3..3} up to length 6 (625k series) for zero crossings (both modes) and switched peaks "
+              "(statement predicates + canonical reference), enumerated and generated tolerance cases (subsequence relation), generated structured series up to 5000.",
+        note=_NOTE + " Open known finding C12-KF1 (tol > 0 opening group) routes extras that precede the first peak >= tol.",
+        technique="exhaustive enumeration of small alphabets + property-based testing (Hypothesis): reference-model, validity-predicate and metamorphic (subsequence) oracles"),
+    "C13": dict(
+        level="Generated search: total-variation identities (equality on integer/dyadic data), offset independence, and the power-law cycle/amplitude series "
+              "against a reference built from the reference switched peaks; inverse, scaling, identical-component and array-b relations; ~1.2k quick, ~88k thorough.",
+        note=_NOTE,
+        technique="property-based testing (Hypothesis): reference-model + metamorphic oracles"),
+    "C15": dict(
+        level="Generated search against a long-double O(n^2) evaluation of the S-transform definition (n <= 160) and its per-row inverse-FFT form (n <= 1024); both "
+              "implementations, linearity, Fourier marginal, inverse, dominant frequency on on-grid cosines with drawn phase; ~3k quick, ~37k thorough.",
+        note=_NOTE,
+        technique="property-based testing (Hypothesis): reference-model, differential and round-trip oracles"),
     "C16": dict(
         level="Round trip through real files in a per-process temporary directory over records (tiny/large/negative/integer values, float/int/list), dt in "
               "[1e-4,100] on both sides of 1 s, labels over printable ASCII, every loader entry point and factor m; ~1k quick, ~80k thorough.",
